@@ -15,3 +15,4 @@ def run(ck):
     filt.r10_touching_supports(ck, P)
     filt.r11_final_correction(ck, P)
     filt.r12_param_block_validated(ck, P)
+    filt.r14_header_fields_bounded(ck, P)
